@@ -166,3 +166,19 @@ func TraceRetInt64(i, k int) int64 {
 	n, _ := Trace[i].Rets[k].(int64)
 	return n
 }
+
+// ForallKey2 reports whether f holds for every pair of keys.
+func ForallKey2[K comparable, V any](m map[K]V, f func(K, K) bool) bool {
+	for k1 := range m {
+		for k2 := range m {
+			if !f(k1, k2) {
+				return false
+			}
+		}
+	}
+	return true
+}
+
+// WellFormed states the type invariant of a slice header (0 <= len <= cap, a nil slice has no capacity). It is true
+// of every Go slice; the verifier needs it spelled out for slices it reaches under a quantifier.
+func WellFormed(b []byte) bool { return len(b) <= cap(b) }
